@@ -82,6 +82,8 @@ type Event struct {
 	f    Firer
 	next *Event
 	Dead bool
+	// Chain: events with the same non-zero chain fire in the order they were scheduled (a TCP stream is FIFO)
+	Chain uintptr
 }
 
 const (
@@ -654,6 +656,14 @@ func (w *World) pick(cur *Task, preempt bool) *Task {
 		if w.verdict != nil || w.ended {
 			return nil
 		}
+		if int64(w.seq) > w.cfg.MaxSteps {
+			name := "?"
+			if cur != nil {
+				name = cur.Name
+			}
+			w.setVerdict("step_budget", name, fmt.Sprintf("run exceeded %d steps (scheduling decisions included); last task %s", w.cfg.MaxSteps, name))
+			return nil
+		}
 		n := 0
 		curReady := cur != nil && cur.state == stRunnable
 		if curReady && !preempt {
@@ -676,9 +686,26 @@ func (w *World) pick(cur *Task, preempt bool) *Task {
 			n, nt = 1, 1
 		}
 		ne := 0
+		var chains [16]uintptr
+		nch := 0
 		for e := w.ev; e != nil && e.at <= w.now && ne < len(evs); e = e.next {
 			if e.Dead {
 				continue
+			}
+			if e.Chain != 0 {
+				dup := false
+				for i := 0; i < nch; i++ {
+					if chains[i] == e.Chain {
+						dup = true
+					}
+				}
+				if dup {
+					continue // an earlier event of the same FIFO chain must fire first
+				}
+				if nch < len(chains) {
+					chains[nch] = e.Chain
+					nch++
+				}
 			}
 			evs[ne] = e
 			ne++
@@ -1051,6 +1078,30 @@ func JumpClock(d int64) {
 //
 //go:norace
 func SetVerdict(class, key, msg string) { W.setVerdict(class, key, msg) }
+
+// Flag is a one-shot condition harness tasks can block on.
+type Flag struct{ set bool }
+
+//go:norace
+func (f *Flag) Ready(*Task) bool { return f.set }
+
+//go:norace
+func (f *Flag) Set() { f.set = true; W.seq++ }
+
+//go:norace
+func (f *Flag) IsSet() bool { return f.set }
+
+// Wait blocks until Set was called (or the absolute sim deadline passed; -1 none).
+//
+//go:norace
+func (f *Flag) Wait(deadline int64) bool {
+	for !f.set {
+		if !Block(f, 0, "flag", deadline) {
+			return false
+		}
+	}
+	return true
+}
 
 // Kick tells the scheduler that a channel changed state outside rewritten code (e.g. context cancel).
 //
